@@ -16,6 +16,7 @@ from symnp.core import And, Or, SymBool, lift
 from symnp.harness import Obligation, eq, jsonable
 from props.common import Task, prod
 from props.c10 import tr
+from props.npa_quantum import NpaQuantumTask
 from toqito.nonlocal_games.nonlocal_game import NonlocalGame
 
 NG = "toqito.nonlocal_games.nonlocal_game"
@@ -33,7 +34,8 @@ META = {
                    "product game (symbolic p, V). E2/T3 on the REAL programs: the cvxpy program built by commuting_measurement_value_upper_bound (real "
                    "npa_constraints, k in {1,'1+ab',2}) is captured; with the answer functions as z3 symbols, the point M(a,b|x,y)=[f(x)=a][g(y)=b], R = v v^T "
                    "(v = word values, PSD by construction) satisfies every generated equality and sign constraint and the captured objective equals that "
-                   "strategy's winning probability => classical <= NPA_k for every game of the shape; the level-k' equalities imply the level-k ones on the "
+                   "strategy's winning probability => classical <= NPA_k for every game of the shape; for CHSH, explicit QUANTUM strategies (Gaussian-rational non-commuting qubit projectors, symbolic shared state, "
+                   "real and complex) are feasible moment points with their own value => the achieved 0.8535 <= NPA_k; the level-k' equalities imply the level-k ones on the "
                    "principal submatrix => NPA_k' <= NPA_k; the NPA constraints imply that M is a non-signalling box and the captured nonsignaling_value "
                    "program is equivalent to the LP over non-signalling boxes (both embeddings) => NPA_k <= NS; NS <= 1 by arithmetic. See-saw programs: T1 "
                    "against max Re sum pV Tr(B^dagger A) over POVMs (Alice: sub-normalised by tau). BCS constructor: complete enumeration of all 0/1 "
@@ -49,7 +51,7 @@ META = {
     "trusted_base": ["numpy object-array semantics (translator validation)", "cvxpy evaluates its own affine expressions (extraction, cross-checked)",
                      "principal submatrices / v v^T / traces of PSD matrices are PSD / >= 0 (used as mathematical facts in the certificates)",
                      "the conic solver returns the optimum of the program it is handed", "z3 5.1.0"],
-    "outside_claim": ["that a feasible point of the see-saw programs is achieved by a quantum strategy (lower bound <= NPA bound): a theorem about that parametrisation, not glue",
+    "outside_claim": ["that a feasible point of the see-saw programs is achieved by a quantum strategy (lower bound <= NPA bound): a theorem about that parametrisation, not glue; quantum <= NPA_k is decided for explicit qubit strategies on CHSH only",
                       "numerical optimality / local optima of the see-saw iteration", "games with more than 9 and at most 1000 enumerated strategies end to end (covered in two halves: process_iteration with every entry symbolic up to 9, the dispatch of strategy indices up to 2187 with process_iteration uninterpreted)",
                       "order independence beyond 'classical_value leaves the attributes untouched' (SDP methods are captured, they do not assign to the attributes)"],
     "assumptions": ["floats modelled as reals"],
@@ -245,14 +247,16 @@ def ob_classical_dispatch(A, B, X, Y):
                                  "multiprocessing.Pool as in-process stub)"])
 
 
-def ob_product(A, B, X, Y):
+def ob_product(A, B, X, Y, reps_type="int"):
     cfg = {"alice_out": A, "bob_out": B, "alice_in": X, "bob_in": Y, "reps": 2}
+    if reps_type != "int":
+        cfg["reps_given_as"] = reps_type
 
     def build(b):
         return {"p": b.array("p", (X, Y), "r"), "V": b.array("V", (A, B, X, Y), "r")}
 
     def call(i):
-        g = NonlocalGame(i["p"], i["V"], reps=2)
+        g = NonlocalGame(i["p"], i["V"], reps=2 if reps_type == "int" else getattr(np, reps_type)(2))
         return [np.asarray(g.prob_mat), np.asarray(g.pred_mat)]
 
     def oracle(i):
@@ -841,10 +845,16 @@ def obligations(tier):
         obs.append(ob_classical_dispatch(*sh))
     for sh in [(2, 2, 2, 2), (2, 3, 1, 2), (3, 2, 2, 1)] + ([(2, 3, 2, 2)] if T else []):
         obs.append(ob_product(*sh))
+    obs.append(ob_product(2, 2, 2, 2, "int64"))
     obs.append(BcsEnumeration(2, 2))
     if T:
         obs.append(BcsEnumeration(3, 2))
         obs.append(BcsEnumeration(1, 3))
+    # explicit QUANTUM strategies (non-commuting Gaussian-rational qubit measurements, symbolic shared state) are feasible for
+    # the captured NPA program with their own value: quantum value <= NPA_k on CHSH (0.8535 achieved > 3/4 classical)
+    for variant in ("chsh-real", "chsh-complex"):
+        for k in (1, "1+ab", 2):
+            obs.append(NpaQuantumTask(variant, k))
     shapes = [(2, 2, 2, 2), (2, 3, 2, 2), (3, 2, 1, 2), (2, 2, 3, 2), (2, 2, 2, 3), (2, 2, 2, 1)] + ([(2, 2, 3, 3), (2, 3, 1, 4)] if T else [])
     for sh in shapes:
         ks = [1, "1+ab"] + ([2] if (T or sh in [(2, 2, 2, 2), (3, 2, 1, 2)]) else [])
